@@ -430,6 +430,15 @@ func c20Gen(tier string, rng *rand.Rand, emit func(string)) map[string]interface
 		}
 	}
 
+	// inversion probe (y = 3): the first invocation lingers; done at the second Call / never / beyond
+	for _, g := range stressG {
+		for _, a := range []int{1, 3} {
+			for _, n := range []int{2 * a, -1, g*20*a + 5} {
+				out("curry_stress", fmt.Sprintf("cs %d 20 %d %d 3", g, a, n))
+			}
+		}
+	}
+
 	// ---- pattern matching: every ordered subset of the five kinds x every probe
 	subsets := 0
 	for pi, probe := range c20Probes {
